@@ -582,30 +582,125 @@ Proof.
     unfold mk_include in Hnone. destruct (fs_get fs (snd f)); [discriminate | reflexivity].
 Qed.
 
-(* ---- the window between the include recorder and add_result: files may have been REMOVED in between ---- *)
+(* ---- the window between the include recorder and add_result ----
+   In between (the preprocessor output is hashed there) files may have been REMOVED, or REWRITTEN: a file that is not
+   the one the recorder saw has been written at or after the start instant (mtime or ctime >= start; see
+   Proofs/PpTimeline.v for why).  add_result then stores no time stamps for it (should_cache_time), so that it is
+   always compared by contents. *)
 Definition sub_fs (fs_add fs : fsnap) : Prop := forall p nd, fs_get fs_add p = Some nd -> fs_get fs p = Some nd.
 
+Definition win_ok (start : N) (fs_add fs : fsnap) : Prop :=
+  forall p nd, fs_get fs_add p = Some nd ->
+               fs_get fs p = Some nd \/ start <= n_mtime nd \/ start <= n_ctime nd.
+
+Lemma sub_fs_win_ok start fs_add fs : sub_fs fs_add fs -> win_ok start fs_add fs.
+Proof. intros Hs p nd Hg. left. apply Hs. exact Hg. Qed.
+
+(* a recorded include entry whose stat data (size, mtime, ctime) is either that of the file the recorder hashed,
+   or absent *)
+Definition recorded_ie_w (cfg : config) (fs : fsnap) (date : bytes) (ie : ientry) : Prop :=
+  exists nd,
+    file_at fs (ie_path D ie) nd /\
+    ((ie_mtime D ie = Some (n_mtime nd) /\ ie_ctime D ie = Some (n_ctime nd) /\ ie_size D ie = n_size nd) \/
+     (ie_mtime D ie = None /\ ie_ctime D ie = None)) /\
+    fl_time (rec_flags cfg (n_bytes nd)) = false /\
+    ifd (H (n_bytes nd)) (rec_flags cfg (n_bytes nd)) date (Some (n_mtime nd)) = Some (ie_digest D ie).
+
+(* one accepted include, for the relaxed notion of a recorded entry *)
+Lemma include_sound_w cfg fs0 date0 fs1 date1 ie :
+  recorded_ie_w cfg fs0 date0 ie ->
+  (file_stat_matches cfg = true -> use_ctime_for_stat cfg = true -> stat_trust fs0 fs1) ->
+  include_matches D Deqb H HT cfg fs1 date1 ie = true ->
+  unchanged cfg fs0 date0 fs1 date1 (ie_path D ie).
+Proof.
+  intros [nd0 [[Hg0 Hk0] [Htimes [Hnt Hdig]]]] Htrust Hm.
+  unfold include_matches in Hm.
+  destruct (fs_get fs1 (ie_path D ie)) as [nd1|] eqn:Hg1; [|discriminate].
+  destruct (N.eqb (n_size nd1) (ie_size D ie)) eqn:Hsz; cbn [negb] in Hm; [|discriminate].
+  apply N.eqb_eq in Hsz.
+  destruct (stat_shortcut D cfg ie nd1) eqn:Hss.
+  - (* accepted by (size, mtime, ctime) *)
+    unfold stat_shortcut in Hss.
+    destruct (file_stat_matches cfg) eqn:Hfsm; simpl in Hss; [|discriminate].
+    destruct (is_salted D (ie_digest D ie)) eqn:Hsalt; simpl in Hss; [discriminate|].
+    destruct Htimes as [[Hmt [Hct Hsz0]] | [Hmt Hct]]; [rewrite Hmt, Hct in Hss | rewrite Hmt in Hss; discriminate].
+    destruct (use_ctime_for_stat cfg) eqn:Huc; [|discriminate].
+    apply andb_true_iff in Hss as [Hm1 Hc1]. apply N.eqb_eq in Hm1. apply N.eqb_eq in Hc1.
+    destruct (Htrust eq_refl eq_refl (ie_path D ie) nd0 nd1 Hg0 Hg1 Hk0) as [Hk1 Hb]; try congruence.
+    exists nd0, nd1. split; [split; assumption|]. split; [split; assumption|]. split; [exact Hb|].
+    destruct (ifd_plain _ _ _ _ _ Hdig Hsalt) as [Hfd Hft].
+    split; [|split]; intros Hitm Hmen; exfalso; unfold rec_flags in Hfd, Hft, Hnt; rewrite Hitm in Hfd, Hft, Hnt.
+    + rewrite (mentions_flag_date _ Hmen) in Hfd. discriminate.
+    + rewrite (mentions_flag_timestamp _ Hmen) in Hft. discriminate.
+    + apply flag_time_mentions in Hmen. congruence.
+  - (* contents comparison *)
+    unfold fs_read in Hm. rewrite Hg1 in Hm.
+    destruct (n_kind nd1) eqn:Hk1; try discriminate.
+    destruct (ignore_time_macros cfg) eqn:Hitm.
+    + apply idigest_eqb_true in Hm.
+      unfold rec_flags in Hdig. rewrite Hitm in Hdig. cbn in Hdig. rewrite Hm in Hdig.
+      inversion Hdig as [He]. apply H_inj in He.
+      exists nd0, nd1. split; [split; assumption|]. split; [split; assumption|]. split; [symmetry; exact He|].
+      split; [|split]; intros Hc; congruence.
+    + destruct (fl_time (scan_file (n_bytes nd1))) eqn:Hft1; [discriminate|].
+      destruct (ifd (H (n_bytes nd1)) (scan_file (n_bytes nd1)) date1
+                    (if fl_timestamp (scan_file (n_bytes nd1)) then Some (n_mtime nd1) else None)) as [d1|] eqn:Hd1;
+        [|discriminate].
+      apply idigest_eqb_true in Hm. subst d1.
+      unfold rec_flags in Hdig, Hnt. rewrite Hitm in Hdig, Hnt.
+      pose proof (ifd_content _ _ _ _ _ _ _ _ _ Hd1 Hdig) as Hc. apply H_inj in Hc.
+      rewrite Hc in Hd1.
+      destruct (ifd_time _ _ _ _ _ _ _ Hd1 Hdig) as [Hdate Hts].
+      exists nd0, nd1. split; [split; assumption|]. split; [split; assumption|]. split; [exact Hc|].
+      split; [|split]; intros _ Hmen.
+      * apply Hdate. apply mentions_flag_date. exact Hmen.
+      * pose proof (mentions_flag_timestamp _ Hmen) as Hf. specialize (Hts Hf). rewrite Hf in Hts.
+        inversion Hts. reflexivity.
+      * apply flag_time_mentions in Hmen. congruence.
+Qed.
+
+
+Definition res_ok_w (cfg : config) (op : rec_op) (incs : list ientry) : Prop :=
+  Forall (recorded_ie_w cfg (ro_fs op) (ro_date op)) incs /\
+  (forall p, must_record cfg op p -> exists ie, In ie incs /\ ie_path D ie = p).
+
+Definition entry_inv_w (cfg : config) (ops : list rec_op) (e : entry D) : Prop :=
+  forall k incs, In (k, incs) (results D e) -> exists op, In op ops /\ ro_key op = k /\ res_ok_w cfg op incs.
+
+(* add_result stores no time stamps for a file written at or after the compile start (should_cache_time) *)
+Theorem mk_include_no_stat_for_new fs start f ie nd :
+  mk_include D fs start f = Some ie -> fs_get fs (snd f) = Some nd ->
+  (start <= n_mtime nd \/ start <= n_ctime nd) ->
+  ie_mtime D ie = None /\ ie_ctime D ie = None.
+Proof.
+  unfold mk_include. intros Hmk Hg Hnew. rewrite Hg in Hmk.
+  assert (Hl : N.ltb (N.max (n_mtime nd) (n_ctime nd)) start = false) by (apply N.ltb_ge; lia).
+  rewrite Hl in Hmk. inversion Hmk; subst. split; reflexivity.
+Qed.
+
 Lemma mk_include_recorded_w cfg fs fs_add start date d p ie :
-  sub_fs fs_add fs ->
+  win_ok start fs_add fs ->
   good_header cfg fs start date (p, d) ->
   mk_include D fs_add start (d, p) = Some ie ->
-  recorded_ie cfg fs date ie /\ ie_path D ie = p.
+  recorded_ie_w cfg fs date ie /\ ie_path D ie = p.
 Proof.
-  intros Hsub [nd [[Hg Hk] [_ [Hnt Hd]]]] Hmk. unfold mk_include in Hmk. simpl in *.
+  intros Hwin [nd [[Hg Hk] [_ [Hnt Hd]]]] Hmk. unfold mk_include in Hmk. simpl in *.
   destruct (fs_get fs_add p) as [nd'|] eqn:Hg'; [|discriminate].
-  pose proof (Hsub p nd' Hg') as Hg2. rewrite Hg in Hg2. inversion Hg2; subst nd'.
   inversion Hmk; subst; clear Hmk. simpl. split; [|reflexivity].
-  exists nd. simpl. split; [split; assumption|]. split; [reflexivity|]. split.
-  - destruct (N.ltb (N.max (n_mtime nd) (n_ctime nd)) start); [left | right]; split; reflexivity.
-  - split; assumption.
+  exists nd. simpl. split; [split; assumption|]. split; [|split; assumption].
+  destruct (Hwin p nd' Hg') as [Hsame | Hnew].
+  - rewrite Hg in Hsame. inversion Hsame; subst nd'.
+    destruct (N.ltb (N.max (n_mtime nd) (n_ctime nd)) start); [left | right]; repeat split; reflexivity.
+  - right. assert (Hl : N.ltb (N.max (n_mtime nd') (n_ctime nd')) start = false) by (apply N.ltb_ge; lia).
+    rewrite Hl. split; reflexivity.
 Qed.
 
 Lemma apply_rec_w_inv cfg ops e op fs_add :
-  sub_fs fs_add (ro_fs op) ->
-  entry_inv cfg ops e -> entry_inv cfg (ops ++ [op]) (fst (apply_rec_w D H HT cfg e op fs_add)).
+  win_ok (ro_start op) fs_add (ro_fs op) ->
+  entry_inv_w cfg ops e -> entry_inv_w cfg (ops ++ [op]) (fst (apply_rec_w D H HT cfg e op fs_add)).
 Proof.
   intros Hsub Hinv.
-  assert (Hweak : entry_inv cfg (ops ++ [op]) e).
+  assert (Hweak : entry_inv_w cfg (ops ++ [op]) e).
   { intros k incs Hin. destruct (Hinv k incs Hin) as [o [Ho Hrest]]. exists o. split; [apply in_or_app; left; exact Ho | exact Hrest]. }
   unfold apply_rec_w, record_w.
   destruct (remember_all D H HT cfg (ro_fs op) (ro_start op) (ro_date op) (ro_input op) [] (ro_incs op))
@@ -615,18 +710,18 @@ Proof.
   destruct (remember_all_spec _ _ _ _ _ _ _ _ Hrem) as [Hgood [_ Hcompl]].
   specialize (Hgood (Forall_nil _)).
   set (base := if ro_fresh op then entry_new D else e).
-  assert (Hbase : entry_inv cfg (ops ++ [op]) base).
+  assert (Hbase : entry_inv_w cfg (ops ++ [op]) base).
   { unfold base. destruct (ro_fresh op); [intros k incs []|exact Hweak]. }
   unfold add_result.
   set (e1 := if N.ltb max_pp_cache_entries (len (results D base))
              then {| number_of_entries := 0; results := [] |} else base).
-  assert (He1 : entry_inv cfg (ops ++ [op]) e1).
+  assert (He1 : entry_inv_w cfg (ops ++ [op]) e1).
   { unfold e1. destruct (N.ltb max_pp_cache_entries (len (results D base))); [intros k incs []|exact Hbase]. }
   destruct (map_opt (mk_include D fs_add (ro_start op)) (sort_files D included)) as [incs|] eqn:Hmap; [|exact He1].
   set (rs := if N.ltb max_pp_cache_file_info_entries (len incs + number_of_entries D e1) then [] else results D e1).
   assert (Hrs : forall k v, In (k, v) rs -> In (k, v) (results D e1)).
   { unfold rs. destruct (N.ltb max_pp_cache_file_info_entries (len incs + number_of_entries D e1)); [intros k v []|tauto]. }
-  assert (Hnew : res_ok cfg op incs).
+  assert (Hnew : res_ok_w cfg op incs).
   { apply map_opt_Forall2 in Hmap. split.
     - apply Forall_forall. intros ie Hie.
       destruct (Forall2_in_r _ _ _ _ Hmap Hie) as [[d p] [Hdp Hmk]].
@@ -640,7 +735,7 @@ Proof.
       exists ie. split; [exact Hie|]. rewrite Forall_forall in Hgood.
       apply (mk_include_recorded_w cfg _ _ _ _ d p ie Hsub (Hgood _ Hd) Hmk). }
   assert (Hfinal : forall k' v', In (k', v') (rs_put D (ro_key op) incs rs) ->
-                                 exists o, In o (ops ++ [op]) /\ ro_key o = k' /\ res_ok cfg o v').
+                                 exists o, In o (ops ++ [op]) /\ ro_key o = k' /\ res_ok_w cfg o v').
   { intros k' v' Hin. apply rs_put_in in Hin. destruct Hin as [Heq | Hold].
     - inversion Heq; subst. exists op. split; [apply in_or_app; right; left; reflexivity|]. split; [reflexivity | exact Hnew].
     - apply (He1 k' v'). apply Hrs. exact Hold. }
@@ -651,13 +746,13 @@ Definition run_recs_w (cfg : config) (ops : list (rec_op * fsnap)) : entry D :=
   fold_left (fun e o => fst (apply_rec_w D H HT cfg e (fst o) (snd o))) ops (entry_new D).
 
 Lemma run_recs_w_inv cfg (ops : list (rec_op * fsnap)) :
-  Forall (fun o => sub_fs (snd o) (ro_fs (fst o))) ops ->
-  entry_inv cfg (map fst ops) (run_recs_w cfg ops).
+  Forall (fun o => win_ok (ro_start (fst o)) (snd o) (ro_fs (fst o))) ops ->
+  entry_inv_w cfg (map fst ops) (run_recs_w cfg ops).
 Proof.
   unfold run_recs_w. intros Hall.
-  assert (Hgen : forall ops1 ops0 e, Forall (fun o => sub_fs (snd o) (ro_fs (fst o))) ops1 ->
-            entry_inv cfg ops0 e ->
-            entry_inv cfg (ops0 ++ map fst ops1)
+  assert (Hgen : forall ops1 ops0 e, Forall (fun o => win_ok (ro_start (fst o)) (snd o) (ro_fs (fst o))) ops1 ->
+            entry_inv_w cfg ops0 e ->
+            entry_inv_w cfg (ops0 ++ map fst ops1)
                       (fold_left (fun e o => fst (apply_rec_w D H HT cfg e (fst o) (snd o))) ops1 e)).
   { induction ops1 as [|o ops1 IH]; intros ops0 e Hf Hinv; simpl.
     - rewrite app_nil_r. exact Hinv.
@@ -668,7 +763,7 @@ Proof.
 Qed.
 
 Theorem lookup_sound_w cfg (ops : list (rec_op * fsnap)) fs1 date1 k :
-  Forall (fun o => sub_fs (snd o) (ro_fs (fst o))) ops ->
+  Forall (fun o => win_ok (ro_start (fst o)) (snd o) (ro_fs (fst o))) ops ->
   (file_stat_matches cfg = true -> use_ctime_for_stat cfg = true ->
    forall op, In op (map fst ops) -> stat_trust (ro_fs op) fs1) ->
   lookup_result_digest D Deqb H HT cfg fs1 date1 (run_recs_w cfg ops) = Some k ->
@@ -683,7 +778,7 @@ Proof.
   intros p Hmust. destruct (Hcompl p Hmust) as [ie [Hie Hp]]. subst p.
   unfold result_matches in Hrm. rewrite forallb_forall in Hrm.
   rewrite Forall_forall in Hrec.
-  apply (include_sound cfg _ _ _ _ ie (Hrec ie Hie)).
+  apply (include_sound_w cfg _ _ _ _ ie (Hrec ie Hie)).
   - intros Hf Hu. apply (Htrust Hf Hu op Hop).
   - apply Hrm. exact Hie.
 Qed.
